@@ -307,6 +307,9 @@ theorem fstep_inv (s : Server) (h : WF s) (hh : WFH s) (op : FOp) (ok : FOpOk op
     | ok o => simp only; exact wf_conns _ e _
   | disconnect c =>
     exact ⟨(wf_foldl_abort _ s h).1, wfh_foldl_abort _ s hh⟩
+  | restart =>
+    exact ⟨⟨by simp [fstep, restartOp], by simp [fstep, restartOp, getK], h.fin, by simp [fstep, restartOp, getK]⟩,
+           ⟨by simp [fstep, restartOp], by simp [fstep, restartOp], by simp [fstep, restartOp], by simp [fstep, restartOp]⟩⟩
 
 theorem frun_inv (s : Server) (h : WF s) (hh : WFH s) (ops : List FOp) (ok : ∀ o ∈ ops, FOpOk o) :
     WF (frun s ops) ∧ WFH (frun s ops) := by
@@ -370,5 +373,15 @@ theorem fstep_refines (s : Server) (h : WF s) (hh : WFH s) (op : FOp) (ok : FOpO
         obtain ⟨w, f⟩ := v
         simp only
         cases hc : (widsOfConn s c).contains w.wid <;> simp [hc]
+  | restart =>
+    intro k
+    simp only [fstep, restartOp, absShare, getK]
+    cases hfin : getK k s.final with
+    | some f => rfl
+    | none =>
+      simp only
+      cases getK k s.incoming with
+      | none => rfl
+      | some v => rfl
 
 end Tahoe.Storage.Imm
